@@ -89,11 +89,12 @@ func newWorld(t testing.TB) *world {
 	for _, n := range []string{"S", "P", "T", "X"} {
 		reg(n, detKey("account-"+n).GetScriptHash())
 	}
-	w.scripts["E"] = blob('E', w.gas)
-	w.scripts["D"] = blob('D', w.gas)
+	sink := hash.Hash160([]byte("verif-c15-sink-account"))
+	w.scripts["E"] = blob('E', w.gas, sink)
+	w.scripts["D"] = blob('D', w.gas, sink)
 	reg("E", hash.Hash160(w.scripts["E"]))
 	reg("D", hash.Hash160(w.scripts["D"]))
-	script, off := contractScript('K', w.gas)
+	script, off := contractScript('K', w.gas, sink)
 	for _, n := range []string{"A", "B", "C"} {
 		ne, err := nef.NewFile(script)
 		if err != nil {
@@ -260,6 +261,7 @@ func (w *world) run(signers []transaction.Signer, plan stackitem.Item) (out []ob
 	if err != nil {
 		fault = err.Error()
 	}
+	// R is a Go object: what was recorded before a fault is still there
 	for _, it := range r.Value().([]stackitem.Item) {
 		a := it.Value().([]stackitem.Item)
 		gi := func(i int) int { b, _ := a[i].TryInteger(); return int(b.Int64()) }
